@@ -77,25 +77,36 @@ theorem mem_sortNat (y : Nat) : ∀ xs : List Nat, y ∈ sortNat xs ↔ y ∈ xs
         · exact Or.inl (Or.inl ⟨ih.mpr h, hlt⟩)
         · exact Or.inr ⟨ih.mpr h, hlt⟩
 
-/-- the leaf of the live tree has room for the properties of the runs (no leaf split) -/
+/-- the last leaf of the live tree has room for the properties of the runs (no leaf split) -/
 def liveLeafLen (vol : PImg) (root : Nat) : Nat :=
   if root = 0 then 0 else
     match vol.trees.find? (fun t => t.key == root) with
-    | some t => (t.leaves.getD 0 ⟨[], false, 0⟩).entries.length
+    | some t => (t.leaves.getD (t.leaves.length - 1) ⟨[], false, 0⟩).entries.length
     | none => 0
+
+/-- no key of the live tree is above a key that is to be sunk (keys ascend with time) -/
+def LiveAscends (vol : PImg) (root : Nat) (qs : List Nat) : Prop :=
+  match vol.trees.find? (fun t => t.key == root) with
+  | some t => ∀ x ∈ t.leaves.flatMap (fun l => l.entries.filterMap id), ∀ q ∈ qs, x ≤ q
+  | none => True
+
+instance (vol : PImg) (root : Nat) (qs : List Nat) : Decidable (LiveAscends vol root qs) := by
+  unfold LiveAscends
+  cases vol.trees.find? (fun t => t.key == root) <;> simp only <;> infer_instance
 
 def NoSplit (cfg : Cfg) (m : Mem) (vol : PImg) : Prop := liveLeafLen vol m.proot + (cProps m).length ≤ cfg.leafCap
 
 instance (cfg : Cfg) (m : Mem) (vol : PImg) : Decidable (NoSplit cfg m vol) :=
   inferInstanceAs (Decidable (_ ≤ _))
 
-/-- the weaker condition: sinking into a NEW tree may split leaves at will; only the LIVE tree must
-    be one leaf entered directly with room for the properties (an in-place split of the live tree is
-    finding C01-live-tree-in-place) -/
-def NoLiveSplit (cfg : Cfg) (m : Mem) (vol : PImg) : Prop := m.proot ≠ 0 → cProps m ≠ [] → m.ptop = false ∧ NoSplit cfg m vol
+/-- the weaker condition: sinking into a NEW tree may split leaves at will; sinking into the LIVE
+    tree must not split its last leaf (an in-place split of the live tree is finding
+    C01-live-tree-in-place) and, when the tree has an internal root, must append (keys ascend) -/
+def NoLiveSplit (cfg : Cfg) (m : Mem) (vol : PImg) : Prop :=
+  m.proot ≠ 0 → cProps m ≠ [] → NoSplit cfg m vol ∧ (m.ptop = true → LiveAscends vol m.proot (cProps m))
 
 instance (cfg : Cfg) (m : Mem) (vol : PImg) : Decidable (NoLiveSplit cfg m vol) :=
-  inferInstanceAs (Decidable (_ → _ → _))
+  inferInstanceAs (Decidable (_ → _ → _ ∧ (_ → _)))
 
 /-! ### segments and trees of the volatile image -/
 
@@ -161,7 +172,7 @@ end Nervus.Crash
 
 namespace Nervus.Crash
 
-variable {p0 : PImg} {live lo : Nat} {allowed covered : List Nat} {top : Bool}
+variable {p0 : PImg} {live lo : Nat} {allowed covered : List Nat} {lv : LiveP}
 
 /-! ### block judgements of the three parts -/
 
@@ -169,21 +180,21 @@ def segJs (m : Mem) : List Nat := (List.range (cNData m - 1)).map (· + 1)
 
 theorem pblk_segA (m : Mem) (ps0 : PS) (hsk : SameKey p0.hdr ps0.pm) (hnp : lo ≤ min ps0.bm ps0.pm.nextPage) :
     (segA m ps0).2.2 = min ps0.bm ps0.pm.nextPage ∧
-    ∃ nd', PBlk p0 live allowed covered top lo lo ps0 (segA m ps0).1
+    ∃ nd', PBlk p0 live allowed covered lv lo lo ps0 (segA m ps0).1
       ((0 :: (segJs m ++ [cNData m])).map (fun j => PEff.segPart (min ps0.bm ps0.pm.nextPage) j (cNData m + 1) (cEdges m))) nd'
       (segA m ps0).2.1 := by
-  obtain ⟨b0, hk0, _⟩ := pblk_alloc (p0 := p0) (live := live) (lo := lo) (allowed := allowed) (covered := covered) (top := top) ps0 hsk hnp
+  obtain ⟨b0, hk0, _⟩ := pblk_alloc (p0 := p0) (live := live) (lo := lo) (allowed := allowed) (covered := covered) (lv := lv) ps0 hsk hnp
   generalize hmf : min ps0.bm ps0.pm.nextPage = mf at b0 hk0 hnp
-  have bw1 := pblk_write (p0 := p0) (live := live) (lo := lo) (allowed := allowed) (covered := covered) (top := top) b0.sk b0.np
+  have bw1 := pblk_write (p0 := p0) (live := live) (lo := lo) (allowed := allowed) (covered := covered) (lv := lv) b0.sk b0.np
     (.segPart mf 0 (cNData m + 1) (cEdges m)) (allocA ps0).2.2 ⟨hnp, by omega⟩
-  have b2 := pblk_segParts (p0 := p0) (live := live) (lo := lo) (allowed := allowed) (covered := covered) (top := top) mf (cNData m + 1) (cEdges m)
+  have b2 := pblk_segParts (p0 := p0) (live := live) (lo := lo) (allowed := allowed) (covered := covered) (lv := lv) mf (cNData m + 1) (cEdges m)
     hnp (segJs m) (mf + 1) (allocA ps0).2.1 b0.sk b0.np (by omega)
-  obtain ⟨b3, _, _⟩ := pblk_alloc_eq (p0 := p0) (live := live) (lo := lo) (allowed := allowed) (covered := covered) (top := top)
+  obtain ⟨b3, _, _⟩ := pblk_alloc_eq (p0 := p0) (live := live) (lo := lo) (allowed := allowed) (covered := covered) (lv := lv)
     (segPartsA mf (cNData m + 1) (cEdges m) (allocA ps0).2.1 (segJs m)).2 b2.sk b2.np
-  have bw4 := pblk_write (p0 := p0) (live := live) (lo := lo) (allowed := allowed) (covered := covered) (top := top) b3.sk b3.np
+  have bw4 := pblk_write (p0 := p0) (live := live) (lo := lo) (allowed := allowed) (covered := covered) (lv := lv) b3.sk b3.np
     (.segPart mf (cNData m) (cNData m + 1) (cEdges m))
     (allocA (segPartsA mf (cNData m + 1) (cEdges m) (allocA ps0).2.1 (segJs m)).2).2.2 ⟨hnp, by omega⟩
-  have bs := pblk_sync (p0 := p0) (live := live) (lo := lo) (allowed := allowed) (covered := covered) (top := top) b3.sk b3.np
+  have bs := pblk_sync (p0 := p0) (live := live) (lo := lo) (allowed := allowed) (covered := covered) (lv := lv) b3.sk b3.np
   have hall := ((((b0.append bw1).append b2).append b3).append bw4).append bs
   refine ⟨by simp [segA, hk0], mf + 1 + (segJs m).length + 1, ?_⟩
   have hk : (allocA ps0).2.2 = mf := hk0
@@ -193,9 +204,10 @@ theorem leaf1_empty (r : Nat) : Leaf1 (emptyTree r) [] r := ⟨rfl, rfl⟩
 
 theorem pblk_treeA (cfg : Cfg) (hcap1 : 1 ≤ cfg.leafCap) (m : Mem) (vol : PImg) (ps : PS) (nd : Nat) (hsk : SameKey p0.hdr ps.pm)
     (hnp : min ps.bm ps.pm.nextPage = nd) (hpos : 0 < nd) (hlive : live = m.proot) (hvol : vol.trees = p0.trees)
-    (hns : m.proot ≠ 0 → cProps m ≠ [] → top = false ∧ NoSplit cfg m vol) (hprops : ∀ q ∈ cProps m, q ∈ allowed) (hcov0 : live = 0 → covered = [])
-    (htree : live ≠ 0 → ∃ t, treeFind p0 live = some t ∧ TreeOK allowed covered top t) :
-    ∃ nd' effs, PBlk p0 live allowed covered top lo nd ps (treeA cfg m vol ps).1 effs nd' (treeA cfg m vol ps).2.1 ∧
+    (hns : m.proot ≠ 0 → cProps m ≠ [] → NoSplit cfg m vol ∧ (lv.top = true → LiveAscends vol m.proot (cProps m)))
+    (hprops : ∀ q ∈ cProps m, q ∈ allowed) (hcov0 : live = 0 → covered = [])
+    (htree : live ≠ 0 → ∃ t last, treeFind p0 live = some t ∧ LiveOK allowed covered lv t last) :
+    ∃ nd' effs, PBlk p0 live allowed covered lv lo nd ps (treeA cfg m vol ps).1 effs nd' (treeA cfg m vol ps).2.1 ∧
       (∀ e ∈ effs, TreeE e) ∧
       (cProps m = [] → (treeA cfg m vol ps).2.2 = (m.proot, m.ptop) ∧ effs = []) ∧
       (cProps m ≠ [] → (treeA cfg m vol ps).2.2.1 ≠ 0 ∧
@@ -204,7 +216,7 @@ theorem pblk_treeA (cfg : Cfg) (hcap1 : 1 ≤ cfg.leafCap) (m : Mem) (vol : PImg
             TreeOK allowed (covered ++ cProps m) (treeA cfg m vol ps).2.2.2 t) := by
   by_cases hp : cProps m = []
   · refine ⟨nd, [], ?_, by simp, fun _ => ⟨by simp [treeA, hp], rfl⟩, fun h => absurd hp h⟩
-    simpa [treeA, hp] using PBlk.nil (live := live) (lo := lo) (allowed := allowed) (covered := covered) (top := top) hsk hnp
+    simpa [treeA, hp] using PBlk.nil (live := live) (lo := lo) (allowed := allowed) (covered := covered) (lv := lv) hsk hnp
   · have hpe : (cProps m).isEmpty = false := by
       cases h : cProps m with
       | nil => exact absurd h hp
@@ -212,14 +224,14 @@ theorem pblk_treeA (cfg : Cfg) (hcap1 : 1 ≤ cfg.leafCap) (m : Mem) (vol : PImg
     by_cases hr : m.proot = 0
     · -- a new tree: leaf splits allowed
       have hl0 : live = 0 := by rw [hlive, hr]
-      obtain ⟨ba, hpid, _⟩ := pblk_alloc_eq (p0 := p0) (live := live) (lo := lo) (allowed := allowed) (covered := covered) (top := top) ps hsk hnp
+      obtain ⟨ba, hpid, _⟩ := pblk_alloc_eq (p0 := p0) (live := live) (lo := lo) (allowed := allowed) (covered := covered) (lv := lv) ps hsk hnp
       have hrne : (allocA ps).2.2 ≠ live := by rw [hpid, hl0]; omega
-      have bn := pblk_write (p0 := p0) (live := live) (lo := lo) (allowed := allowed) (covered := covered) (top := top) ba.sk ba.np
+      have bn := pblk_write (p0 := p0) (live := live) (lo := lo) (allowed := allowed) (covered := covered) (lv := lv) ba.sk ba.np
         (.treeNew (allocA ps).2.2) (allocA ps).2.2 ⟨hrne, by rw [hpid]; omega⟩
       have hsh0 : TreeShape (emptyTree (allocA ps).2.2) ([] ++ [[]]) false :=
         treeShape_single (emptyTree (allocA ps).2.2) [] (allocA ps).2.2 rfl (by intro i j _ hj; simp at hj) rfl
       obtain ⟨nd2, e2, bs, hTE2, hf2, Xi2, last2, tp2, hsh2, hflat2, hbl2, hkey2⟩ :=
-        pblk_sinkNew (p0 := p0) (live := live) (lo := lo) (allowed := allowed) (covered := covered) (top := top) cfg hcap1 (cProps m) (nd + 1)
+        pblk_sinkNew (p0 := p0) (live := live) (lo := lo) (allowed := allowed) (covered := covered) (lv := lv) cfg hcap1 (cProps m) (nd + 1)
           (allocA ps).2.1 (emptyTree (allocA ps).2.2) [] [] false ba.sk ba.np hrne hsh0 (sortNat_pairwise _) (by intro x hx; simp at hx)
       have hall := (ba.append bn).append bs
       have hroot : (treeA cfg m vol ps).2.2.1 = (allocA ps).2.2 := by
@@ -247,55 +259,103 @@ theorem pblk_treeA (cfg : Cfg) (hcap1 : 1 ≤ cfg.leafCap) (m : Mem) (vol : PImg
         · intro q hq
           rw [hcov0 hl0, List.nil_append] at hq
           exact ⟨by rw [hflat2]; simpa using hq, (hbl2 q).mpr (Or.inl hq)⟩
-    · -- the live tree: one leaf entered directly, with room
+    · -- the live tree: appends to its last leaf, with room
       have hl : live ≠ 0 := by rw [hlive]; exact hr
-      obtain ⟨htf, hns'⟩ := hns hr hp
-      obtain ⟨t0, hf0, hok0⟩ := htree hl
-      obtain ⟨X0, hsh0, hal0, hcv0⟩ := hok0.shape
-      subst htf
-      obtain ⟨xs0, pid0, rfl, hlv, hsrt, hino⟩ := treeShape_single_inv hsh0
-      have hal : ∀ q ∈ xs0, q ∈ allowed := fun q hq => hal0 q (by simpa using hq)
-      have hcv : ∀ q ∈ covered, q ∈ xs0 ∧ q ∈ t0.blobs := fun q hq => by simpa using hcv0 q hq
-      have hl1 : Leaf1 t0 xs0 pid0 := ⟨hlv, hino⟩
+      obtain ⟨hns', hasc⟩ := hns hr hp
+      obtain ⟨t0, last, hf0, hok0⟩ := htree hl
       have hk0 : t0.key = live := (treeFind_key hf0).2
       have hfv : vol.trees.find? (fun t => t.key == m.proot) = some t0 := by
         rw [hvol, ← hlive]; exact hf0
       have hfind : (vol.trees.find? (fun t => t.key == m.proot)).getD (emptyTree m.proot) = t0 := by
         rw [hfv]; rfl
-      have hcap : xs0.length + (cProps m).length ≤ cfg.leafCap := by
+      obtain ⟨pids, hlv⟩ := hok0.shape.leaves
+      have hcap : last.length + (cProps m).length ≤ cfg.leafCap := by
         have := hns'
-        simp only [NoSplit, liveLeafLen, hr, if_false, hfv, hlv] at this
+        obtain ⟨pl, hpl⟩ := mkLeaves_snoc_get lv.Xi last pids ⟨[], false, 0⟩
+        simp only [NoSplit, liveLeafLen, hr, if_false, hfv, hlv, mkLeaves_snoc_len, Nat.add_sub_cancel, hpl] at this
         simpa using this
-      obtain ⟨bs, hres⟩ := pblk_sink (p0 := p0) (live := live) (lo := lo) (allowed := allowed) (covered := covered) (top := false) cfg (cProps m) nd
-        ps t0 xs0 pid0 hsk hnp hl1 hcap (Or.inr ⟨rfl, hsrt, hal, fun q hq => (hcv q hq).1, hprops⟩)
-      refine ⟨_, _, by simpa [treeA, treeStartA, hpe, hr, hfind] using bs, sinkEffs_treeE _ _ _ _, fun h => absurd h hp,
-        fun _ => ⟨?_, ?_⟩⟩
-      · simp only [treeA, hpe, treeStartA, hr, if_false, Bool.false_eq_true, hfind, hres]
-        show t0.key ≠ 0
-        rw [hk0]; exact hl
-      · intro p hp'
+      have hroot0 : ∀ (r : List Action × PS × TreeImg), r.2.2.key = t0.key →
+          (r.2.2.key ≠ 0) := fun r h => by rw [h, hk0]; exact hl
+      by_cases htop : lv.top = true
+      · -- several leaves under an internal root: keys ascend
+        have hq : ∀ x ∈ (lv.Xi ++ [last]).flatten, ∀ q ∈ cProps m, x ≤ q := by
+          have := hasc htop
+          simp only [LiveAscends, hfv, hlv, entries_mkLeaves] at this
+          exact this
+        obtain ⟨effs, bs, hTE, hf2, hsh2, hbl2, hkey2⟩ :=
+          pblk_sinkLive (p0 := p0) (live := live) (lo := lo) (allowed := allowed) (covered := covered) (lv := lv) cfg (cProps m) nd ps t0 last
+            hsk hnp hok0.shape hok0.hd hok0.allowed (fun q hq' => (hok0.covered q hq').1) hprops hcap (sortNat_pairwise _) hq
         have hroot : (treeA cfg m vol ps).2.2.1 = live := by
-          simp only [treeA, hpe, treeStartA, hr, if_false, Bool.false_eq_true, hfind, hres]
-          exact hk0
-        have htop : (treeA cfg m vol ps).2.2.2 = false := by
-          simp only [treeA, hpe, treeStartA, hr, if_false, Bool.false_eq_true, hfind, hres]
-          show t0.inode.isSome = false
-          rw [hino]; rfl
-        rw [hroot, htop]
-        have h1 : treeFind p live = some t0 := by rw [treeFind_congr hp']; exact hf0
-        have h2 := treeFind_sinkEffs live pid0 (cProps m) xs0 p t0 h1 hl1
-        rw [hk0]
-        refine ⟨_, h2, ⟨[sinkXs xs0 (cProps m)], treeShape_single _ _ pid0 rfl (sortedNat_sinkXs _ _ hsrt) hino, ?_, ?_⟩⟩
-        · intro q hq
-          simp only [List.flatten_cons, List.flatten_nil, List.append_nil] at hq
-          rcases (mem_sinkXs q _ _).mp hq with h | h
-          · exact hal q h
-          · exact hprops q h
-        · intro q hq
-          simp only [List.flatten_cons, List.flatten_nil, List.append_nil]
-          rcases List.mem_append.mp hq with h | h
-          · exact ⟨(mem_sinkXs q _ _).mpr (Or.inl (hcv q h).1), by simp [sunk, (hcv q h).2]⟩
-          · exact ⟨(mem_sinkXs q _ _).mpr (Or.inr h), by simp [sunk, h]⟩
+          simp only [treeA, hpe, treeStartA, hr, if_false, Bool.false_eq_true, hfind]
+          rw [hkey2]; exact hk0
+        have htop' : (treeA cfg m vol ps).2.2.2 = lv.top := by
+          simp only [treeA, hpe, treeStartA, hr, if_false, Bool.false_eq_true, hfind]
+          exact treeShape_top hsh2
+        refine ⟨_, _, by simpa [treeA, treeStartA, hpe, hr, hfind] using bs, hTE, fun h => absurd h hp, fun _ => ⟨by rw [hroot]; exact hl, ?_⟩⟩
+        intro p hp'
+        rw [hroot, htop']
+        have h1 : treeFind p t0.key = some t0 := by rw [hk0, treeFind_congr hp']; exact hf0
+        have h2 := hf2 p h1
+        rw [hk0] at h2
+        refine ⟨_, h2, ⟨lv.Xi ++ [last ++ cProps m], hsh2, ?_, ?_⟩⟩
+        · intro q hq'
+          simp only [List.flatten_append, List.flatten_cons, List.flatten_nil, List.append_nil, List.mem_append] at hq'
+          rcases hq' with hq' | hq' | hq'
+          · exact hok0.allowed q (by simp [hq'])
+          · exact hok0.allowed q (by simp [hq'])
+          · exact hprops q hq'
+        · intro q hq'
+          have hfl : (lv.Xi ++ [last ++ cProps m]).flatten = (lv.Xi ++ [last]).flatten ++ cProps m := by simp
+          rw [hfl]
+          rcases List.mem_append.mp hq' with h | h
+          · exact ⟨List.mem_append_left _ (hok0.covered q h).1, (hbl2 q).mpr (Or.inr (hok0.covered q h).2)⟩
+          · exact ⟨List.mem_append_right _ h, (hbl2 q).mpr (Or.inl h)⟩
+      · -- one leaf entered directly: any order
+        have htf : lv.top = false := by simpa using htop
+        have hsh0 := hok0.shape
+        rw [htf] at hsh0
+        obtain ⟨xs0, pid0, hX, hlv1, hsrt, hino⟩ := treeShape_single_inv hsh0
+        have hXi : lv.Xi = [] := by
+          cases hXi : lv.Xi with
+          | nil => rfl
+          | cons x Xs => rw [hXi] at hX; simp at hX
+        have hlast : last = xs0 := by rw [hXi] at hX; simpa using hX
+        subst hlast
+        have hflat : (lv.Xi ++ [last]).flatten = last := by rw [hXi]; simp
+        have hal : ∀ q ∈ last, q ∈ allowed := fun q hq => hok0.allowed q (by rw [hflat]; exact hq)
+        have hcv : ∀ q ∈ covered, q ∈ last ∧ q ∈ t0.blobs := fun q hq => by
+          have := hok0.covered q hq; rw [hflat] at this; exact this
+        have hl1 : Leaf1 t0 last pid0 := ⟨hlv1, hino⟩
+        obtain ⟨bs, hres⟩ := pblk_sink (p0 := p0) (live := live) (lo := lo) (allowed := allowed) (covered := covered) (lv := lv) cfg (cProps m) nd
+          ps t0 last pid0 hsk hnp hl1 hcap (Or.inr ⟨hXi, hsrt, hal, fun q hq => (hcv q hq).1, hprops⟩)
+        refine ⟨_, _, by simpa [treeA, treeStartA, hpe, hr, hfind] using bs, sinkEffs_treeE _ _ _ _, fun h => absurd h hp,
+          fun _ => ⟨?_, ?_⟩⟩
+        · simp only [treeA, hpe, treeStartA, hr, if_false, Bool.false_eq_true, hfind, hres]
+          show t0.key ≠ 0
+          rw [hk0]; exact hl
+        · intro p hp'
+          have hroot : (treeA cfg m vol ps).2.2.1 = live := by
+            simp only [treeA, hpe, treeStartA, hr, if_false, Bool.false_eq_true, hfind, hres]
+            exact hk0
+          have htop' : (treeA cfg m vol ps).2.2.2 = false := by
+            simp only [treeA, hpe, treeStartA, hr, if_false, Bool.false_eq_true, hfind, hres]
+            show t0.inode.isSome = false
+            rw [hino]; rfl
+          rw [hroot, htop']
+          have h1 : treeFind p live = some t0 := by rw [treeFind_congr hp']; exact hf0
+          have h2 := treeFind_sinkEffs live pid0 (cProps m) last p t0 h1 hl1
+          rw [hk0]
+          refine ⟨_, h2, ⟨[sinkXs last (cProps m)], treeShape_single _ _ pid0 rfl (sortedNat_sinkXs _ _ hsrt) hino, ?_, ?_⟩⟩
+          · intro q hq
+            simp only [List.flatten_cons, List.flatten_nil, List.append_nil] at hq
+            rcases (mem_sinkXs q _ _).mp hq with h | h
+            · exact hal q h
+            · exact hprops q h
+          · intro q hq
+            simp only [List.flatten_cons, List.flatten_nil, List.append_nil]
+            rcases List.mem_append.mp hq with h | h
+            · exact ⟨(mem_sinkXs q _ _).mpr (Or.inl (hcv q h).1), by simp [sunk, (hcv q h).2]⟩
+            · exact ⟨(mem_sinkXs q _ _).mpr (Or.inr h), by simp [sunk, h]⟩
 
 end Nervus.Crash
 
@@ -313,19 +373,19 @@ theorem complete_parts (m : Mem) (k : Nat) (es : List Nat) :
 def frontier (p : PImg) : Nat := min p.bm p.hdr.nextPage
 
 /-- what the page phase of a compaction establishes -/
-structure PagesPost (cfg : Cfg) (T : List Tx) (fs : FS) (m : Mem) (covered : List Nat) (top : Bool) : Prop where
+structure PagesPost (cfg : Cfg) (T : List Tx) (fs : FS) (m : Mem) (covered : List Nat) (lv : LiveP) : Prop where
   nofail : failOf (pagesA cfg m fs.pv).1 = none
   plain : Plain (pagesA cfg m fs.pv).1
   pager : PagerActs (pagesA cfg m fs.pv).1
   setpm : OnlySetPm (memUpds (pagesA cfg m fs.pv).1)
   lastpm : lastPm (memUpds (pagesA cfg m fs.pv).1) m.pm = (pagesA cfg m fs.pv).2.1.pm
   lastbm : lastBm (memUpds (pagesA cfg m fs.pv).1) m.bm = (pagesA cfg m fs.pv).2.1.bm
-  safe : SafeAlong (fun g => AllImgsL m.proot g (fun p => ∃ n, CG fs.pd m.proot (allProps T) covered top (frontier fs.pd) n p)) fs
+  safe : SafeAlong (fun g => AllImgsL m.proot g (fun p => ∃ n, CG fs.pd m.proot (allProps T) covered lv (frontier fs.pd) n p)) fs
     (ioSteps (pagesA cfg m fs.pv).1)
   pj : (fs.steps (ioSteps (pagesA cfg m fs.pv).1)).pj = [PEff.stats]
   hdr : (fs.steps (ioSteps (pagesA cfg m fs.pv).1)).pd.hdr = (pagesA cfg m fs.pv).2.1.pm
   pbm : (fs.steps (ioSteps (pagesA cfg m fs.pv).1)).pd.bm = (pagesA cfg m fs.pv).2.1.bm
-  cg : ∃ n, CG fs.pd m.proot (allProps T) covered top (frontier fs.pd) n (fs.steps (ioSteps (pagesA cfg m fs.pv).1)).pd
+  cg : ∃ n, CG fs.pd m.proot (allProps T) covered lv (frontier fs.pd) n (fs.steps (ioSteps (pagesA cfg m fs.pv).1)).pd
   k0 : (pagesA cfg m fs.pv).2.2.1 = min m.bm m.pm.nextPage
   seg : ∃ s, segFind (fs.steps (ioSteps (pagesA cfg m fs.pv).1)).pd (pagesA cfg m fs.pv).2.2.1 = some s ∧ s.edges = cEdges m
   same : cProps m = [] → (pagesA cfg m fs.pv).2.2.2 = (m.proot, m.ptop)
@@ -333,14 +393,15 @@ structure PagesPost (cfg : Cfg) (T : List Tx) (fs : FS) (m : Mem) (covered : Lis
     ∃ t, treeFind (fs.steps (ioSteps (pagesA cfg m fs.pv).1)).pd (pagesA cfg m fs.pv).2.2.2.1 = some t ∧
       TreeOK (allProps T) (covered ++ cProps m) (pagesA cfg m fs.pv).2.2.2.2 t
 
-theorem pages_post {cfg : Cfg} {T : List Tx} {fs : FS} {m : Mem} {cs : List CTx} {c : Nat}
-    (hcap1 : 1 ≤ cfg.leafCap) (h : InvOpen T fs m cs c) (hns : NoLiveSplit cfg m fs.pv) (covered : List Nat)
+theorem pages_post_lv {cfg : Cfg} {T : List Tx} {fs : FS} {m : Mem} {cs : List CTx} {c : Nat}
+    (hcap1 : 1 ≤ cfg.leafCap) (h : InvOpen T fs m cs c) (hns : NoLiveSplit cfg m fs.pv) (covered : List Nat) (lv : LiveP)
+    (hlv : lv.top = (scan cs).ptop)
     (hc2 : (scan cs).proot = 0 → covered = [])
-    (hc3 : (scan cs).proot ≠ 0 → ∃ t, treeFind fs.pd (scan cs).proot = some t ∧ TreeOK (allProps T) covered (scan cs).ptop t) :
-    PagesPost cfg T fs m covered (scan cs).ptop := by
+    (hc3 : (scan cs).proot ≠ 0 → ∃ t last, treeFind fs.pd (scan cs).proot = some t ∧ LiveOK (allProps T) covered lv t last) :
+    PagesPost cfg T fs m covered lv := by
   have hpv : fs.pv = fs.pd := h.pv
   have hlive : m.proot = (scan cs).proot := h.mroot
-  have hinit : AllImgsL m.proot fs (CG fs.pd m.proot (allProps T) covered (scan cs).ptop (frontier fs.pd) (frontier fs.pd)) := by
+  have hinit : AllImgsL m.proot fs (CG fs.pd m.proot (allProps T) covered lv (frontier fs.pd) (frontier fs.pd)) := by
     refine allImgsL_of_inert _ fs _ h.pj ?_
     exact { i2e := rfl, cat := rfl, idx := rfl, hdr := SameKey.refl _, lond := Nat.le_refl _, np := Nat.min_le_right _ _,
             bmlo := Nat.min_le_left _ _, len := Nat.le_refl _,
@@ -356,7 +417,7 @@ theorem pages_post {cfg : Cfg} {T : List Tx} {fs : FS} {m : Mem} {cs : List CTx}
     unfold frontier; omega
   have hmfe : min (m.ps fs.pv).bm (m.ps fs.pv).pm.nextPage = min m.bm m.pm.nextPage := rfl
   rw [hmfe] at hnp0
-  obtain ⟨hk0, nd1, bseg⟩ := pblk_segA (p0 := fs.pd) (live := m.proot) (lo := frontier fs.pd) (allowed := allProps T) (covered := covered) (top := (scan cs).ptop) m (m.ps fs.pv) hsk0 hnp0
+  obtain ⟨hk0, nd1, bseg⟩ := pblk_segA (p0 := fs.pd) (live := m.proot) (lo := frontier fs.pd) (allowed := allProps T) (covered := covered) (lv := lv) m (m.ps fs.pv) hsk0 hnp0
   rw [hmfe] at hk0 bseg
   have hprops : ∀ q ∈ cProps m, q ∈ allProps T := by
     intro q hq
@@ -370,11 +431,11 @@ theorem pages_post {cfg : Cfg} {T : List Tx} {fs : FS} {m : Mem} {cs : List CTx}
     unfold frontier at *
     omega
   obtain ⟨nd2, teffs, btree, hTE, hcase1, hcase2⟩ :=
-    pblk_treeA (p0 := fs.pd) (live := m.proot) (lo := frontier fs.pd) (allowed := allProps T) (covered := covered) (top := (scan cs).ptop) cfg hcap1 m fs.pv (segA m (m.ps fs.pv)).2.1 nd1
-      bseg.sk bseg.np hpos rfl (by rw [hpv]) (fun hr hp => by rw [← h.mptop]; exact hns hr hp) hprops (by rw [hlive]; exact hc2) (by rw [hlive]; exact hc3)
-  obtain ⟨ba, _, hef⟩ := pblk_alloc_eq (p0 := fs.pd) (live := m.proot) (lo := frontier fs.pd) (allowed := allProps T) (covered := covered) (top := (scan cs).ptop)
+    pblk_treeA (p0 := fs.pd) (live := m.proot) (lo := frontier fs.pd) (allowed := allProps T) (covered := covered) (lv := lv) cfg hcap1 m fs.pv (segA m (m.ps fs.pv)).2.1 nd1
+      bseg.sk bseg.np hpos rfl (by rw [hpv]) (fun hr hp => by rw [hlv, ← h.mptop]; exact hns hr hp) hprops (by rw [hlive]; exact hc2) (by rw [hlive]; exact hc3)
+  obtain ⟨ba, _, hef⟩ := pblk_alloc_eq (p0 := fs.pd) (live := m.proot) (lo := frontier fs.pd) (allowed := allProps T) (covered := covered) (lv := lv)
     (treeA cfg m fs.pv (segA m (m.ps fs.pv)).2.1).2.1 btree.sk btree.np
-  have bw := pblk_write (p0 := fs.pd) (live := m.proot) (lo := frontier fs.pd) (allowed := allProps T) (covered := covered) (top := (scan cs).ptop) ba.sk ba.np .stats
+  have bw := pblk_write (p0 := fs.pd) (live := m.proot) (lo := frontier fs.pd) (allowed := allProps T) (covered := covered) (lv := lv) ba.sk ba.np .stats
     (allocA (treeA cfg m fs.pv (segA m (m.ps fs.pv)).2.1).2.1).2.2 trivial
   have hall := ((bseg.append btree).append ba).append bw
   have hacts : (pagesA cfg m fs.pv).1 = (((segA m (m.ps fs.pv)).1 ++ (treeA cfg m fs.pv (segA m (m.ps fs.pv)).2.1).1) ++
@@ -464,5 +525,16 @@ theorem pages_post {cfg : Cfg} {T : List Tx} {fs : FS} {m : Mem} {cs : List CTx}
     obtain ⟨e1, e2⟩ := htreeF _ rfl
     obtain ⟨t, ht, hok⟩ := r3 _ e2
     exact ⟨t, by rw [treeFind_congr e1]; exact ht, hok⟩
+
+theorem pages_post {cfg : Cfg} {T : List Tx} {fs : FS} {m : Mem} {cs : List CTx} {c : Nat}
+    (hcap1 : 1 ≤ cfg.leafCap) (h : InvOpen T fs m cs c) (hns : NoLiveSplit cfg m fs.pv) (covered : List Nat)
+    (hc2 : (scan cs).proot = 0 → covered = [])
+    (hc3 : (scan cs).proot ≠ 0 → ∃ t, treeFind fs.pd (scan cs).proot = some t ∧ TreeOK (allProps T) covered (scan cs).ptop t) :
+    ∃ lv : LiveP, lv.top = (scan cs).ptop ∧ PagesPost cfg T fs m covered lv := by
+  by_cases hr : (scan cs).proot = 0
+  · exact ⟨⟨(scan cs).ptop, [], 0⟩, rfl, pages_post_lv hcap1 h hns covered _ rfl hc2 (fun hne => absurd hr hne)⟩
+  · obtain ⟨t, hf, hok⟩ := hc3 hr
+    obtain ⟨lv, last, hlv, hlo⟩ := hok.live
+    exact ⟨lv, hlv, pages_post_lv hcap1 h hns covered lv hlv hc2 (fun _ => ⟨t, last, hf, hlo⟩)⟩
 
 end Nervus.Crash
